@@ -94,3 +94,24 @@ fn o09b_int_text_roundtrip_bounded() {
     kani::assert(got == x, "O-09b-k: read_int returns the value append_int wrote");
     kani::assert(used == n, "O-09b-k: read_int stops at the first non-digit");
 }
+
+//@ obligation: O-18n
+//@ props: C18 C09
+//@ kind: complete
+//@ functions: lz_diff::LZDiff::new
+//@ claim: LZDiff::new(min_match_len) neither overflows nor shifts out of range for EVERY min_match_len >= 4 (key_len = min_match_len - 3 >= 1); key_mask has exactly 2*key_len low bits set, all 64 when key_len >= 32
+#[kani::proof]
+fn o18n_lzdiff_new_no_overflow() {
+    let mm: u32 = kani::any();
+    kani::assume(mm >= 4);
+    let lz = LZDiff::new(mm);
+    kani::cover!(mm == 35, "key_len == 32 reachable");
+    kani::cover!(mm == 34, "key_len == 31 reachable");
+    kani::assert(lz.key_len == mm - 3, "O-18n: key_len = min_match_len - HASHING_STEP + 1");
+    kani::assert(lz.min_match_len == mm, "O-18n: min_match_len stored");
+    if lz.key_len >= 32 {
+        kani::assert(lz.key_mask == u64::MAX, "O-18n: full mask for key_len >= 32");
+    } else {
+        kani::assert(lz.key_mask == (1u64 << (2 * lz.key_len)) - 1, "O-18n: mask has 2*key_len low bits");
+    }
+}
